@@ -1288,9 +1288,14 @@ def rule_i5(ctx):
     return rule_I5(ctx, modules=('ExprNodes',), floor=1, names=lambda n: 'OVERFLOW' in n.upper(), rid='C04-I5')
 
 
+def _dscope(ctx):
+    from ..rules import dscope
+    return dscope.rule_dscope(ctx)
+
+
 def run(ctx):
     return [rule_ops(ctx), rule_fold(ctx), rule_pure(ctx), rule_enable(ctx), rule_bit(ctx), rule_p1(ctx), rule_name(ctx),
-            rule_dispatch(ctx), rule_w1(ctx), rule_i5(ctx)]
+            rule_dispatch(ctx), rule_w1(ctx), rule_i5(ctx), _dscope(ctx)]
 
 
 MUTATIONS = [
